@@ -13,6 +13,10 @@ import vcheck, conc_check
 PROP = "Properties/Properties_C01.v"
 HARNESS = "harness/C01/main.cpp"
 MON_KEYS = ["guarded_dispose", "double_dispose", "unretired_dispose", "touch_disposed", "not_exactly_once"]
+KNOWN_KEY = "copy_down_disposed"       # known finding hp-guard-copy-downward (see Properties_C01.C01_copy_down_unsafe)
+KNOWN_SIG = "hp-guard-copy-downward"
+KNOWN_WHAT = ("a guard obtained by Guard::copy of a protected pointer into a LOWER hazard slot does not protect: a scan already in progress "
+              "reads the slots in ascending order, misses the pointer once the source slot is released, and the object is disposed while the copy holds it")
 MON_WHAT = {
     "guarded_dispose": "HP gave an object to its disposer while a guard that held it since before the scan began still holds it (real code, guard monitor)",
     "double_dispose": "HP disposed a retired object more than once (real code, dispose counter)",
@@ -236,8 +240,24 @@ def report_first_divergence(ctx, c, d):
 
 def run(ctx):
     res = vcheck.coq_build([PROP])
+    if not res.ok and ("missing separator" in res.log or ".Makefile.d" in res.log or "No rule to make target" in res.log):
+        # the generated dependency file of the shared coq/ directory was being rewritten by a concurrent run: once more
+        try:
+            os.remove(os.path.join(vcheck.COQ, ".Makefile.d"))
+        except OSError:
+            pass
+        res = vcheck.coq_build([PROP])
     ctx.coq_evidence(res)
-    model = conc_check.build_model(ctx, "Extract_Hp.v")
+    try:
+        model = conc_check.build_model(ctx, "Extract_Hp.v")
+    except vcheck.BuildError as e:
+        if "Makefile" not in str(e):
+            raise
+        try:
+            os.remove(os.path.join(vcheck.COQ, ".Makefile.d"))
+        except OSError:
+            pass
+        model = conc_check.build_model(ctx, "Extract_Hp.v")
     impl = vcheck.cxx_build(os.path.join(vcheck.VERIF, HARNESS), os.path.join(ctx.work, "harness"), hook=True)
 
     if ctx.replay:
@@ -255,7 +275,7 @@ def run(ctx):
 
     rc1, mlog, rc2, ilog, raw = conc_check.run_both(ctx, model, impl, cases, fuel=40000)
     strip_ghost(mlog)
-    diverged = 0; first_div = None; steps = 0; mon_hits = {}
+    diverged = 0; first_div = None; steps = 0; mon_hits = {}; known_cases = 0
     shapes = set(); nontrivial = set()
     hist = {"scans": 0, "disposes": 0, "survived": 0}
     cfg_hist = {}; op_hist = {}
@@ -270,6 +290,9 @@ def run(ctx):
         for k in bad_keys(mon):
             if k not in mon_hits:
                 mon_hits[k] = (c, first, i["lines"])
+        if mon.get(KNOWN_KEY, 0) > 0:
+            known_cases += 1
+            ctx.violation(KNOWN_WHAT, {"case": c, "monitor": KNOWN_KEY, "impl_log": i["lines"]}, signature=KNOWN_SIG)
         d = conc_check.compare(m, i)
         if d is not None:
             diverged += 1
@@ -321,7 +344,7 @@ def run(ctx):
         "traces_validated_against_impl": len(cases) - diverged,
         "scans": hist["scans"], "dispose_events": hist["disposes"], "scans_with_survivor": hist["survived"],
         "config_histogram": cfg_hist, "op_histogram": {str(k): v for k, v in sorted(op_hist.items())},
-        "monitors": MON_KEYS, "monitor_hits": sorted(mon_hits.keys()),
+        "monitors": MON_KEYS + [KNOWN_KEY], "monitor_hits": sorted(mon_hits.keys()), "known_finding_cases": known_cases,
         "samples": [{k: v for k, v in c.items()} for c in cases[ncorpus:ncorpus + 2]] if len(cases) > ncorpus else cases[:1],
         "modelled": "cds::gc::hp::details::basic_smr (alloc_thread_data, free_thread_data, scan, classic_scan, inplace_scan, help_scan, detach_all_thread, ~basic_smr), "
                     "thread_data/retired_array (push, reset, interthread_clear), generic_HP::Guard (protect, assign, clear, copy), generic_HP::retire/scan",
